@@ -308,6 +308,14 @@ func (l *PartitionLog) Flush(ctx context.Context) error {
 		l.flushCond.Wait()
 	}
 	artifact, err := l.prepareFlush()
+	// When nothing was drained, the only offset that may be (re)published is the
+	// last one already committed to an S3 segment. nextOffset-1 can cover batches
+	// that are still buffered or in flight (appended after the drain above), and
+	// publishing it would move the durable high watermark ahead of S3.
+	committed := int64(-1)
+	if artifact == nil && len(l.segments) > 0 {
+		committed = l.segments[len(l.segments)-1].lastOffset
+	}
 	l.mu.Unlock()
 	if err != nil {
 		return err
@@ -320,13 +328,8 @@ func (l *PartitionLog) Flush(ctx context.Context) error {
 	}
 	if l.onFlush != nil {
 		target := artifact
-		if target == nil {
-			l.mu.Lock()
-			current := l.nextOffset - 1
-			l.mu.Unlock()
-			if current >= 0 {
-				target = &SegmentArtifact{LastOffset: current}
-			}
+		if target == nil && committed >= 0 {
+			target = &SegmentArtifact{LastOffset: committed}
 		}
 		if target != nil {
 			l.onFlush(ctx, target)
